@@ -71,10 +71,11 @@ Fixpoint account_vars (inf : Z) (a : assignment) (vs : list (string * list Z)) (
               end
   end.
 
-(* pydcop.dcop.dcop.solution_cost: None = ValueError (len(variables) != len(assignment)).
-   Result = (cost_hard, cost_soft) = (violation, cost). *)
+(* pydcop.dcop.dcop.solution_cost: None = ValueError (a variable without value, or
+   len(variables) != len(assignment)).  Result = (cost_hard, cost_soft) = (violation, cost). *)
 Definition solution_cost (d : dcop) (a : assignment) : option (Z * Z) :=
-  if negb (Nat.eqb (List.length (d_vars d)) (List.length a)) then None
+  if negb (forallb (fun v => mem_key String.eqb (fst v) a) (d_vars d))
+     || negb (Nat.eqb (List.length (d_vars d)) (List.length a)) then None
   else match account_cons (d_infinity d) a (d_cons d) (0, 0) with
        | Some hs => Some (account_vars (d_infinity d) a (d_vars d) hs)
        | None => None
